@@ -47,6 +47,8 @@ enum Op {
     /// move to 1 ms before / 1 s after the earliest deadline
     ProbeBefore,
     ProbeAfter,
+    /// DeleteTopic, and every handle to the topic is dropped: the subscription keeps serving what it holds (C11)
+    DeleteTopic,
     /// shortly before the earliest deadline every lease is acknowledged in a call of its own (no other request in
     /// between), then the clock crosses the deadline: "once Acknowledge has returned ... never delivered again"
     AckEachThenCross,
@@ -63,6 +65,7 @@ fn op_to_json(op: &Op) -> String {
         Op::ProbeBefore => "[\"probe_before\"]".to_string(),
         Op::ProbeAfter => "[\"probe_after\"]".to_string(),
         Op::AckEachThenCross => "[\"ack_each_then_cross\"]".to_string(),
+        Op::DeleteTopic => "[\"delete_topic\"]".to_string(),
     }
 }
 fn ops_to_json(ops: &[Op]) -> String { format!("[{}]", ops.iter().map(op_to_json).collect::<Vec<_>>().join(",")) }
@@ -93,6 +96,7 @@ fn parse_ops(s: &str) -> Vec<Op> {
             "probe_before" => { ops.push(Op::ProbeBefore); i += 1; }
             "probe_after" => { ops.push(Op::ProbeAfter); i += 1; }
             "ack_each_then_cross" => { ops.push(Op::AckEachThenCross); i += 1; }
+            "delete_topic" => { ops.push(Op::DeleteTopic); i += 1; }
             "ack" => {
                 let mut ids = Vec::new();
                 i += 3; // , [
@@ -174,12 +178,13 @@ async fn run_history(ops: &[Op], ack_deadline_s: u64, uptime_days: u64) -> Resul
     let topic_manager = TopicManager::new();
     let subscription_manager = SubscriptionManager::new(Default::default());
     let topic = topic_manager.create_topic(TopicName::new("p", "t")).map_err(|_| setup("create topic"))?;
+    let mut topic = Some(topic);
     let info = SubscriptionInfo::new(SubscriptionName::new("p", "s"), Duration::from_secs(ack_deadline_s), None);
-    let sub = subscription_manager.create_subscription(info, Arc::clone(&topic)).await.map_err(|_| setup("create sub"))?;
+    let sub = subscription_manager.create_subscription(info, Arc::clone(topic.as_ref().unwrap())).await.map_err(|_| setup("create sub"))?;
     // a second subscription on the same topic: its copy must be untouched by everything done to the first (C02) and
     // must receive every message as well (C01)
     let info2 = SubscriptionInfo::new(SubscriptionName::new("p", "s2"), Duration::from_secs(600), None);
-    let sub2 = subscription_manager.create_subscription(info2, Arc::clone(&topic)).await.map_err(|_| setup("create sub2"))?;
+    let sub2 = subscription_manager.create_subscription(info2, Arc::clone(topic.as_ref().unwrap())).await.map_err(|_| setup("create sub2"))?;
     let d = Duration::from_secs(ack_deadline_s);
     let mut m = Model { pending: Vec::new(), leases: BTreeMap::new(), ghosts: Vec::new(), used_ack_ids: Vec::new(), acked: Vec::new(), published: Vec::new(), delivered_once: Vec::new() };
     let mut payload = 0u32;
@@ -188,8 +193,17 @@ async fn run_history(ops: &[Op], ack_deadline_s: u64, uptime_days: u64) -> Resul
         let fail = |prop: &'static str, what: String| Err(Fail { prop, what: format!("step {} {}: {}", k, op_to_json(op), what) });
         let stats_tag: &'static str;
         match op {
+            Op::DeleteTopic => {
+                stats_tag = "C11";
+                if let Some(t) = topic.take() {
+                    if t.delete().await.is_err() { return fail("C11", "DeleteTopic failed".into()); }
+                    drop(t);
+                    for _ in 0..5 { tokio::task::yield_now().await; }
+                }
+            }
             Op::Publish(n) => {
                 stats_tag = "C01";
+                let topic = match topic.as_ref() { Some(t) => t, None => continue };
                 let msgs = (0..*n).map(|_| { payload += 1; TopicMessage::new(Bytes::from(payload.to_be_bytes().to_vec()), None) }).collect::<Vec<_>>();
                 let resp = topic.publish_messages(msgs).await.map_err(|_| setup("publish"))?;
                 if resp.message_ids.len() != *n as usize { return fail("C08", format!("publish returned {} ids for {} messages", resp.message_ids.len(), n)); }
@@ -343,7 +357,8 @@ async fn run_history(ops: &[Op], ack_deadline_s: u64, uptime_days: u64) -> Resul
             // a message held nowhere is lost: it can no longer be redelivered (C01 "until acknowledged", C04 "becomes available
             // for redelivery"); anything else is attributed to the kind of step that produced it
             let (have, want) = (stats.outstanding_messages_count + stats.backlog_messages_count, m.leases.len() + m.ghosts.len() + m.pending.len());
-            let mut tag = if have < want { "C01+C04" } else { stats_tag };
+            // ... and a message held TWICE (more messages than were ever handed over) can be leased to two consumers at once (C03)
+            let mut tag = if have < want { match (stats_tag, topic.is_none()) { ("C02", _) => "C02+C01+C04", ("C05", _) => "C05+C01+C04", (_, true) => "C11+C01+C04", _ => "C01+C04" } } else if have > want { match stats_tag { "C05" => "C05+C03", "C04" => "C04+C03", "C02" => "C02+C03", "C01" => "C01+C03", _ => "C03" } } else { stats_tag };
             if have == want && stats.outstanding_messages_count > m.leases.len() + m.ghosts.len() {
                 // a lease that should have been requeued is still outstanding: late (C04) - or stuck for good, in which case
                 // the message is never redelivered (C01)? Every deadline is at most 600 s away; look again after 700 s.
@@ -383,10 +398,12 @@ fn gen_ops(rng: &mut Rng, steps: usize) -> Vec<Op> {
         let op = match rng.below(12) {
             0 | 1 => Op::Publish(1 + rng.below(3) as u8),
             2 | 3 | 4 => { let mx = [0u16, 1, 1, 2, 3, 10, 1000][rng.below(7) as usize]; next_ack_guess += 2; Op::Pull(mx) }
-            5 | 6 => { let n = 1 + rng.below(4); Op::Ack((0..n).map(|_| 1 + rng.below(next_ack_guess.min(12) + 2)).collect()) }
+            5 | 6 => { let n = 1 + rng.below(4); Op::Ack((0..n).map(|_| { let id = 1 + rng.below(next_ack_guess.min(12) + 2);
+                // now and then a never-issued id that equals a small id modulo 2^16 / 2^32: must be ignored like any unknown id
+                match rng.below(8) { 0 => id + (1u64 << 32), 1 => id + (1u64 << 16), _ => id } }).collect()) }
             7 | 8 => { let n = 1 + rng.below(4); Op::Modify((0..n).map(|_| (1 + rng.below(next_ack_guess.min(12) + 2), [0, 0, 1, 5, 30, 599, 600, 700][rng.below(8) as usize])).collect()) }
             9 => Op::AdvanceMs([50u64, 1000, 5000, 9990, 10_050, 30_000][rng.below(6) as usize]),
-            10 => match rng.below(4) { 0 => Op::AbandonedPull, 1 => Op::AckEachThenCross, _ => Op::ProbeBefore },
+            10 => match rng.below(5) { 0 => Op::AbandonedPull, 1 => Op::AckEachThenCross, 2 => Op::DeleteTopic, _ => Op::ProbeBefore },
             _ => Op::ProbeAfter,
         };
         ops.push(op);
@@ -405,6 +422,28 @@ fn cmd_history(seed: u64, iters: usize, steps: usize) -> i32 {
         let ops = gen_ops(&mut rng, steps);
         let d = [10u64, 10, 12, 20][rng.below(4) as usize];
         let up = [0u64, 0, 1, 30, 400][rng.below(5) as usize];
+        if std::env::var("VERIF_ISOLATE").is_ok() {
+            // every history in a process of its own: a history on which the real crate aborts the process (e.g. a violated
+            // `unsafe` precondition) is reported instead of taking the whole search down
+            let out = std::process::Command::new(std::env::current_exe().unwrap()).env_remove("VERIF_ISOLATE")
+                .args(["run-history", &d.to_string(), &ops_to_json(&ops), &up.to_string()]).output();
+            if let Ok(o) = out {
+                let txt = String::from_utf8_lossy(&o.stdout).to_string();
+                if let Some(l) = txt.lines().find(|l| l.starts_with("WITNESS ")) {
+                    let prop = l.split("\"property\":\"").nth(1).and_then(|x| x.split('"').next()).unwrap_or("").to_string();
+                    let also: Vec<String> = l.split("\"also\":[").nth(1).and_then(|x| x.split(']').next()).unwrap_or("").split(',').map(|x| x.trim_matches('"').to_string()).collect();
+                    let mine = match std::env::var("VERIF_PROP") { Ok(p) if !p.is_empty() => prop == p || also.contains(&p), _ => true };
+                    if mine { println!("{}", l); return 1; }
+                    if other.is_none() { other = Some(l.to_string()); }
+                } else if !txt.contains("NO-WITNESS") {
+                    let l = format!("WITNESS {{\"kind\":\"history\",\"property\":\"C17\",\"also\":[],\"ack_deadline_s\":{},\"uptime_days\":{},\"ops\":{},\"observed\":{:?},\"iteration\":{}}}", d, up, ops_to_json(&ops),
+                        format!("the process running the real crate died on this history ({:?}): {}", o.status, String::from_utf8_lossy(&o.stderr).lines().filter(|x| x.contains("panicked") || x.contains("unsafe precondition") || x.contains("abort")).next().unwrap_or("")), it);
+                    if wanted("C17") { println!("{}", l); return 1; }
+                    if other.is_none() { other = Some(l); }
+                }
+            }
+            continue;
+        }
         if let Err(e) = rt().block_on(run_history(&ops, d, up)) {
             if !wanted(e.prop) {
                 if other.is_none() { other = Some(format!("WITNESS {{\"kind\":\"history\",{},\"ack_deadline_s\":{},\"uptime_days\":{},\"ops\":{},\"observed\":{:?},\"iteration\":{}}}", prop_json(e.prop), d, up, ops_to_json(&ops), e.what, it)); }
